@@ -13,7 +13,11 @@
   free term algebra (Proofs/PairSetupSym.lean), not as an axiom.
 -/
 import Proofs.PairSetup
+import Proofs.PairSetupOrigin
 import Proofs.PairSetupSym
+import Proofs.PairSetupHybrid
+import Proofs.PairSetupMitm
+import Proofs.PairSetupHybridMitm
 import HapModel.Gen.SrpGroup
 namespace Hap.C01
 open Hap Hap.Tlv Hap.Srp Hap.PairSetup
@@ -161,6 +165,117 @@ theorem C01_exchange_single_use (cfg : Cfg) (ps : PS) (r r' : Req) (h : isO2 (st
   have := C01_m5_needs_m3 cfg { (step cfg ps r).1 with paired := [] } r' hn
   exact ⟨hv, this.1, this.2⟩
 
+/-! ### the gate tied to the SETUP CODE and to the DATA (Proofs/PairSetupOrigin.lean)
+
+  `C01_gate` speaks of "the proof expected by the verifier in the state".  The theorems below pin that
+  verifier down: along every history that starts on a driver without a verifier (a fresh
+  `AccessoryDriver`), the verifier in force is the one `setup_srp_verifier` built from the setup code
+  configured when the latest M1 was served and from that M1's own salt and secret (`Exch`); the expected
+  proof is therefore the closed-form SRP-6a proof for THAT code (`sessOf`, `C01_expected_proof_closed_form`). -/
+
+/-- **Gate, every history, in terms of the setup code.**  For every history of events (pair-setup
+    requests on any connection in any order, bystander activity, the owner unpairing the accessory or
+    changing the setup code) on a driver that starts without a verifier:
+    * every M4 that carries the accessory's proof answers an M3 whose `A ≢ 0 (mod N)` and whose proof is
+      the SRP-6a proof computed from the setup code that was configured when the current exchange was
+      opened, that exchange's salt and secret `b`, and this very `A`; the proof issued is that
+      session's `HAMK`;
+    * every M6 / recorded pairing happens in an exchange in which such an M3 was received (`demoA`, the `A`
+      of the latest one), and the accepted M5 is sealed under the session key of THAT demonstration:
+      `AcceptedM5 … (sessOf cfg x A).Kb`. -/
+theorem C01_gate_code (cfg : Cfg) (ps0 : PS) (h0 : ps0.verifier = none) (evs : List Ev) :
+    ∀ e ∈ xtrace cfg ps0 Ghost.init evs,
+      (isO1 e.out = true →
+        ∃ x A M, e.g.exch = some x ∧ reqA e.req = some A ∧ reqM e.req = some M ∧
+          M = (sessOf cfg x A).M ∧ bytesToNat A % cfg.G.N ≠ 0 ∧ e.out = .m4 (sessOf cfg x A).HAMK) ∧
+      ((isO2 e.out = true ∨ e.post.paired ≠ e.pre.paired) →
+        ∃ x A, e.g.exch = some x ∧ e.g.demoA = some A ∧ bytesToNat A % cfg.G.N ≠ 0 ∧
+          AcceptedM5 cfg (sessOf cfg x A).Kb e.pre e.req e.post) :=
+  gate_code_trace cfg ps0 Ghost.init (ginv_init cfg ps0 h0) evs
+
+/-- The accessory issues its SRP proof EXACTLY for good M3s — in any state, for any request bytes (the
+    predicate the differential run evaluates independently with the reference server formulas and compares
+    with the real answers, op by op). -/
+theorem C01_proof_iff_good_m3 (cfg : Cfg) (ps : PS) (r : Req) :
+    isO1 (step cfg ps r).2.1 = goodM3 cfg ps r :=
+  (goodM3_eq_isO1 cfg ps r).symm
+
+/-- The ghost of `C01_gate_code` is a specification, not a restatement: an exchange is opened only by a
+    served M1 — with the code configured at that moment and that request's randomness — and lives until
+    the next served M1 or accepted M5; the demonstrating `A` is set only by a good M3 of the open exchange
+    and dies with the exchange. -/
+theorem C01_ghost_step (cfg : Cfg) (ps : PS) (g : Ghost) (r : Req) :
+    (∀ x, (gNext cfg ps g r).exch = some x →
+      (isM2 (step cfg ps r).2.1 = true ∧ x = ⟨ps.pincode, r.salt, bytesToNat r.bRand⟩) ∨
+      (isM2 (step cfg ps r).2.1 = false ∧ isO2 (step cfg ps r).2.1 = false ∧ g.exch = some x)) ∧
+    (∀ A, (gNext cfg ps g r).demoA = some A →
+      isM2 (step cfg ps r).2.1 = false ∧ isO2 (step cfg ps r).2.1 = false ∧
+      ((goodM3 cfg ps r = true ∧ reqA r = some A) ∨ (goodM3 cfg ps r = false ∧ g.demoA = some A))) :=
+  ghost_step cfg ps g r
+
+/-- the expected proof of an exchange in closed form (any hash): `x = H(salt ‖ H("Pair-Setup:" code))`,
+    `v = g^x`, `B = (k v + g^b) mod N`, `u = H(PAD A ‖ PAD B)`, `S = (A v^u)^b`, `K = H(S)`,
+    `M = H(H(N) xor H(g) ‖ H(I) ‖ salt ‖ A ‖ B ‖ K)`, `HAMK = H(A ‖ M ‖ K)` -/
+theorem C01_expected_proof_closed_form (cfg : Cfg) (x : Exch) (A : Bytes) :
+    let H := cfg.c.H
+    let G := cfg.G
+    let v := powMod G.g (privKey H x.salt SRP_USER x.code) G.N
+    let Bb := natToBytes ((multK H G * v + powMod G.g x.b G.N) % G.N)
+    let S := premaster G (bytesToNat A) v (scramble H G A Bb) x.b
+    (sessOf cfg x A).Kb = H (natToBytes S) ∧
+    (sessOf cfg x A).M = proofM H G SRP_USER x.salt A Bb (H (natToBytes S)) ∧
+    (sessOf cfg x A).HAMK = H (A ++ (sessOf cfg x A).M ++ H (natToBytes S)) ∧
+    (srvOf cfg x).Bb = Bb ∧ (srvOf cfg x).s = x.salt ∧ (srvOf cfg x).G = G :=
+  sessOf_closed cfg x A
+
+/-- **Pairing origin** (honest controller in the picture, any interleaving with other connections).
+    Whenever a pairing is recorded, the accepted M5 opens under the session key of the M3 that
+    demonstrated knowledge of the code in this very exchange, and the recorded identifier and long-term
+    key are the ones inside it, signed with that key over `HKDF(K) ‖ id ‖ key` (`AcceptedM5`).  In
+    particular, if that demonstration was made by the reference controller with secret `a` (RFC 5054
+    client, the exchange's code), the M5 opens under THAT controller's own session key `K = H(S)` — the key
+    of a session whose secret is known, by the SRP-6a assumption, only to the accessory and to a party
+    holding the code.  A man in the middle who relays the honest M3 but does not know the code cannot
+    seal an M5 of his own under that key (AEAD, DESIGN 2.2), so the key recorded is the honest
+    controller's; what this theorem contributes is the part that is about the CODE: which key the M5 must
+    open under, for every history. -/
+theorem C01_pairing_origin (cfg : Cfg) (ps0 : PS) (h0 : ps0.verifier = none) (evs : List Ev)
+    (hN : 0 < cfg.G.N) :
+    ∀ e ∈ xtrace cfg ps0 Ghost.init evs, e.post.paired ≠ e.pre.paired →
+      ∃ x A, e.g.exch = some x ∧ e.g.demoA = some A ∧
+        AcceptedM5 cfg (sessOf cfg x A).Kb e.pre e.req e.post ∧
+        ∀ a, A = (client cfg.c.H cfg.G SRP_USER x.code x.salt (srvOf cfg x).Bb a).Ab →
+          AcceptedM5 cfg (client cfg.c.H cfg.G SRP_USER x.code x.salt (srvOf cfg x).Bb a).K
+            e.pre e.req e.post := by
+  intro e he hch
+  obtain ⟨x, A, hx, hA, _, hacc⟩ := (C01_gate_code cfg ps0 h0 evs e he).2 (Or.inr hch)
+  refine ⟨x, A, hx, hA, hacc, ?_⟩
+  intro a ha
+  obtain ⟨_, _, hK, _, _⟩ := sess_agree cfg.c.H cfg.G SRP_USER x.code x.salt a x.b hN
+  have : (sessOf cfg x A).Kb
+      = (client cfg.c.H cfg.G SRP_USER x.code x.salt (srvOf cfg x).Bb a).K := by
+    rw [ha]; exact hK
+  rw [← this]; exact hacc
+
+/-- … and under an ideal AEAD (authenticity as a hypothesis record: whatever opens under `k` is a
+    sealing under `k`), the accepted ciphertext IS the sealing, under the demonstration's key, of a
+    sub-TLV carrying exactly the identifier and key that get recorded. -/
+theorem C01_pairing_origin_sealed (cfg : Cfg) (ps0 : PS) (h0 : ps0.verifier = none) (evs : List Ev)
+    (hauth : AeadAuth cfg.c) :
+    ∀ e ∈ xtrace cfg ps0 Ghost.init evs, e.post.paired ≠ e.pre.paired →
+      ∃ x A t sub d ident ltpk u, e.g.exch = some x ∧ e.g.demoA = some A ∧
+        Tlv.decode e.req.body [] = some t ∧
+        lookup t T_ENCRYPTED_DATA
+          = some (cfg.c.aeadEnc (cfg.c.hkdf (sessOf cfg x A).Kb P3_SALT P3_INFO) NONCE5 sub) ∧
+        Tlv.decode sub [] = some d ∧ lookup d T_USERNAME = some ident ∧ lookup d T_PUBLIC_KEY = some ltpk ∧
+        cfg.c.uuidOf ident = some u ∧ e.post.paired = [(u, ltpk, PERM_ADMIN)] := by
+  intro e he hch
+  obtain ⟨x, A, hx, hA, _, t, ed, sub, d, ident, ltpk, sig, u, hd, _, hed, hdec, hdd, hu, hk, _, _, huu, hpost⟩ :=
+    (C01_gate_code cfg ps0 h0 evs e he).2 (Or.inr hch)
+  refine ⟨x, A, t, sub, d, ident, ltpk, u, hx, hA, hd, ?_, hdd, hu, hk, huu, by rw [hpost]⟩
+  rw [hed, hauth _ _ _ _ hdec]
+
+
 /-- **The shipped code is forgeable** (closed-form schema, any hash, code, salt, `b > 0`, any `k`):
     after M1, the M3 with `A = k·N` and the proof computed from PUBLIC data only (salt and `B` from M2,
     `S = 0`) is answered with the server proof (O1 without the code). -/
@@ -229,6 +344,135 @@ theorem C01_symbolic (s0 s : PairSetupSym.SState) (h0 : ∀ t, s0.kn t → PairS
     (∀ t, s.kn t → PairSetupSym.safe t) ∧ s.verified = false ∧ s.paired = none :=
   PairSetupSym.sym_secure s0 s h0 hv0 hp0 hr
 
+/-! ### the Dolev–Yao attacker against the EXECUTABLE accessory (Proofs/PairSetupHybrid.lean)
+
+  `C01_symbolic` above is about a separate symbolic accessory.  The theorems below put the same attacker
+  in front of `PairSetup.step` itself — the model the differential run ties to pyhap. -/
+
+/-- **Format faithfulness.**  Under the interpretation that gives every term the bytes the executable
+    model computes for it (`interp`: `bval` ↦ the `B` of `setup_srp_verifier`, `skey` ↦ the premaster secret
+    of `set_A`, `hsh` ↦ the configured hash, `pair` ↦ concatenation), the symbolic expected proof denotes
+    exactly the proof `verify` compares with, and the symbolic accessory proof the `HAMK` it returns. -/
+theorem C01_symbolic_format (I : PairSetupHybrid.Interp) (hpub : PairSetupHybrid.PubConst I)
+    (salt b A : PairSetupSym.Tm) (hA : A ≠ PairSetupSym.Tm.zero) :
+    PairSetupHybrid.interp I (PairSetupSym.expM salt b A)
+      = (sessOf I.cfg (PairSetupHybrid.exchOf I (salt, b)) (PairSetupHybrid.interp I A)).M ∧
+    PairSetupHybrid.interp I (PairSetupSym.hamk salt b A)
+      = (sessOf I.cfg (PairSetupHybrid.exchOf I (salt, b)) (PairSetupHybrid.interp I A)).HAMK :=
+  PairSetupHybrid.interp_expM I hpub salt b A hA
+
+/-- **Dolev–Yao secrecy for the executable accessory.**  The accessory is `PairSetup.step` on bytes; the
+    attacker sends ANY request bytes in any order (M1, M5, unknown sequence numbers, garbage, M3 lacking a
+    field …), except that the `A` and proof items of a complete M3 denote terms it can derive from its
+    knowledge (it does not guess a 64-byte proof); the owner may unpair the accessory at any point; every
+    answer is learnt.  Hardness is ONE explicit hypothesis, `NoForge`: for `A ≢ 0 (mod N)` no term computable
+    without the setup code, honest secrets and session secrets denotes the proof expected in an exchange
+    made from a public salt atom and a secret atom `b` (DESIGN 2.2:
+    SRP-6a is a PAKE for such `A`; for `A ≡ 0` the executable model refuses by itself, `C01_reject_kN`).
+    Then, from a driver without verifier and safe initial knowledge, along EVERY run: the knowledge stays
+    safe (the code is never learnt) and no served request is answered with the accessory's proof, with
+    M6, or by recording a pairing. -/
+theorem C01_symbolic_exec (I : PairSetupHybrid.Interp) (hpub : PairSetupHybrid.PubConst I)
+    (hnf : PairSetupHybrid.NoForge I) (ps0 : PS) (kn0 : PairSetupSym.Tm → Prop)
+    (hv : ps0.verifier = none) (hc : ps0.pincode = I.code) (hk : ∀ t, kn0 t → PairSetupSym.safe t)
+    (s : PairSetupHybrid.HState) (es : List XEvent)
+    (hr : PairSetupHybrid.HReach I ⟨ps0, Ghost.init, kn0, none, 0⟩ s es) :
+    (∀ t, s.kn t → PairSetupSym.safe t) ∧ verifiedNow s.ps = false ∧
+    ∀ x ∈ es, isO1 x.out = false ∧ isO2 x.out = false ∧ x.post.paired = x.pre.paired ∧
+      x.post = (step I.cfg x.pre x.req).1 ∧ x.out = (step I.cfg x.pre x.req).2.1 := by
+  obtain ⟨hi, hall⟩ := PairSetupHybrid.hybrid_secure I hpub hnf _ s es
+    (PairSetupHybrid.hinit I ps0 kn0 hv hc hk) hr
+  exact ⟨hi.safe, hi.unverified, hall⟩
+
+/-- `NoForge` must exclude `A ≡ 0 (mod N)`: for a public value that is a multiple of `N` (here the atom
+    `nonce 5` denoting `N = 23`) a term built from public values only denotes the expected proof — the
+    defect of the shipped code, seen as a collision. -/
+theorem C01_noforge_needs_nondegenerate :
+    let I : PairSetupHybrid.Interp :=
+      { cfg := { G := { N := 23, g := 5, nLen := 8 }, c := toyCrypto }, code := [2],
+        nonceB := fun n => if n = 0 then xorBytes (toyCrypto.H (natToBytes 23)) (toyCrypto.H (natToBytes 5)) ++ toyCrypto.H SRP_USER
+                           else if n = 5 then [23] else [3], secB := fun _ => [6] }
+    let salt := PairSetupSym.Tm.nonce 4
+    let b := PairSetupSym.Tm.sec 0
+    let At := PairSetupSym.Tm.nonce 5
+    let Mt := PairSetupSym.Tm.hsh (.pair (.nonce 0) (.pair salt (.pair At (.pair (.bval salt b) (.hsh .zero)))))
+    PairSetupSym.safe Mt ∧ At ≠ PairSetupSym.Tm.zero ∧
+    PairSetupHybrid.interp I Mt = PairSetupHybrid.interp I (PairSetupSym.expM salt b At) := by
+  refine ⟨by simp [PairSetupSym.safe], by simp, by decide +kernel⟩
+
+/-- **Pairing origin, symbolically, with the attacker as man in the middle** (honest controller in the
+    picture; terms, derivability and message formats as in `C01_symbolic`, whose expected-proof term
+    denotes the executable model's proof by `C01_symbolic_format`).  The honest controller knows the code;
+    for any exchange whose `B` it is handed it emits its M3 `(g^a, M)` and, at any time, its M5 ciphertext;
+    the attacker sees everything, delivers / drops / re-orders / replays at will, and sends derivable
+    messages of its own; it does not know the code.  In EVERY reachable state:
+    (a) a recorded success (the accessory has issued its proof) means the `A` in force is the public value
+        of an honest controller session run against the CURRENT exchange — relaying the honest M3 is the
+        only way to obtain O1, and an honest M3 replayed into a later exchange (other salt, other `b`) is
+        refused;
+    (b) a recorded pairing carries the identifier and the long-term key that an honest controller put into
+        its own M5 — the attacker cannot substitute its key;
+    (c) the setup code is still not derivable. -/
+theorem C01_mitm_pairing_origin (s : PairSetupMitm.MState) (hr : PairSetupMitm.MReach PairSetupMitm.init s) :
+    (s.verified = true →
+      ∃ x, s.hon x ∧ s.sess = some (x.salt, x.b) ∧ s.lastA = some (PairSetupSym.Tm.gexp x.a)) ∧
+    (∀ i p, s.paired = some (i, p) → ∃ x, s.hon x ∧ i = x.id ∧ p = PairSetupSym.Tm.pk x.sk) ∧
+    ¬ PairSetupSym.Der s.kn PairSetupSym.Tm.code :=
+  PairSetupMitm.mitm_secure s hr
+
+/-- **End to end: executable accessory + Dolev–Yao attacker in the middle + honest controller.**
+    The accessory is `PairSetup.step` on bytes (the model tied to pyhap).  The attacker sends arbitrary
+    request bytes in any order; only the `A` / proof items of a complete M3 denote terms derivable from what
+    it has seen — the accessory's M2 and M4, and everything the honest controller (which knows the code)
+    emits: `A = g^a`, its proof, its M5 ciphertext, for any exchange whose `B` it was handed.  Hardness is
+    the one hypothesis `NoForgeE` (a term computable from public values and honest blobs that denotes the
+    proof expected for `A ≢ 0` in an exchange made from a public salt atom and a secret atom IS that term).
+    Then along EVERY run, for every served request:
+    * O1 (the accessory's proof) is issued only for the `A = g^a` of an honest controller session run
+      against the exchange open at that moment (relay), never for an attacker's own `A` and never for an
+      honest M3 replayed into another exchange;
+    * O2 / O3 answer an M5 that opens under the session key of the REFERENCE CONTROLLER (`Srp.client`, the
+      exchange's code and salt, secret `a`) of such a session — its own `K = H(S)` — and record exactly the
+      identifier and long-term key inside that M5 (`AcceptedM5`).
+    What is left to cryptography: sealing under `K` needs `K` (AEAD), `K` needs the code or `b` (SRP-6a). -/
+theorem C01_end_to_end (I : PairSetupHybrid.Interp) (hpub : PairSetupHybrid.PubConst I)
+    (hnf : PairSetupHybridMitm.NoForgeE I) (hN : 0 < I.cfg.G.N) (ps0 : PS)
+    (hv : ps0.verifier = none) (hc : ps0.pincode = I.code)
+    (s : PairSetupHybridMitm.XState) (es : List XEvent)
+    (hr : PairSetupHybridMitm.XReach I
+      ⟨ps0, Ghost.init, fun t => ∃ n, t = PairSetupSym.Tm.nonce n, fun _ => False, fun _ => False, none, 0⟩ s es) :
+    ∀ x ∈ es,
+      x.post = (step I.cfg x.pre x.req).1 ∧ x.out = (step I.cfg x.pre x.req).2.1 ∧
+      (isO1 x.out = true → ∃ h : PairSetupMitm.HSess, s.hon h ∧
+          x.g.exch = some ⟨I.code, PairSetupHybrid.interp I h.salt, bytesToNat (PairSetupHybrid.interp I h.b)⟩ ∧
+          reqA x.req = some (natToBytes (powMod I.cfg.G.g (bytesToNat (PairSetupHybrid.interp I h.a)) I.cfg.G.N))) ∧
+      ((isO2 x.out = true ∨ x.post.paired ≠ x.pre.paired) → ∃ h : PairSetupMitm.HSess, s.hon h ∧
+          x.g.exch = some ⟨I.code, PairSetupHybrid.interp I h.salt, bytesToNat (PairSetupHybrid.interp I h.b)⟩ ∧
+          AcceptedM5 I.cfg
+            (client I.cfg.c.H I.cfg.G SRP_USER I.code (PairSetupHybrid.interp I h.salt)
+              (srvOf I.cfg ⟨I.code, PairSetupHybrid.interp I h.salt, bytesToNat (PairSetupHybrid.interp I h.b)⟩).Bb
+              (bytesToNat (PairSetupHybrid.interp I h.a))).K
+            x.pre x.req x.post) := by
+  obtain ⟨_, _, hall⟩ := PairSetupHybridMitm.xhybrid_secure I hpub hnf _ s es
+    (PairSetupHybridMitm.xinit I ps0 hv hc) hr
+  intro x hx
+  obtain ⟨h1, h2, h3, h4⟩ := hall x hx
+  refine ⟨h1, h2, ?_, ?_⟩
+  · intro ho
+    obtain ⟨h, hh, r1, r2⟩ := h3 ho
+    exact ⟨h, hh, r1, r2⟩
+  · intro ho
+    obtain ⟨h, hh, r1, r2⟩ := h4 ho
+    refine ⟨h, hh, r1, ?_⟩
+    obtain ⟨_, _, hK, _, _⟩ := sess_agree I.cfg.c.H I.cfg.G SRP_USER I.code (PairSetupHybrid.interp I h.salt)
+      (bytesToNat (PairSetupHybrid.interp I h.a)) (bytesToNat (PairSetupHybrid.interp I h.b)) hN
+    have e : (sessOf I.cfg (PairSetupHybrid.exchOf I (h.salt, h.b))
+        (PairSetupHybrid.interp I (PairSetupSym.Tm.gexp h.a))).Kb
+        = (client I.cfg.c.H I.cfg.G SRP_USER I.code (PairSetupHybrid.interp I h.salt)
+            (srvOf I.cfg ⟨I.code, PairSetupHybrid.interp I h.salt, bytesToNat (PairSetupHybrid.interp I h.b)⟩).Bb
+            (bytesToNat (PairSetupHybrid.interp I h.a))).K := hK
+    rw [← e]; exact r2
+
 /-- the same symbolic accessory without the `A ≠ zero` test (the shipped code): an attacker knowing only
     public values gets its own key paired (`A = zero`, proof from public data, M5 under `H(zero)`). -/
 theorem C01_symbolic_legacy_attack :
@@ -271,6 +515,137 @@ example :
                   ⟨ctrlM5 cfg.c cl.K (ctrlSub [1] [8] csig), [], []⟩]
     (tr.map fun e => (isO1 e.out, isO2 e.out, e.demo, decide (e.post.paired ≠ e.pre.paired)))
       = [(false, false, false, false), (true, false, false, false), (false, true, true, true)] := by
+  decide +kernel
+
+/-- `C01_gate_code` / `C01_pairing_origin` are not vacuous: on the toy instance the honest exchange has the
+    ghost exchange `(code [2], salt [3], b 6)` from M1 on, the demonstrating `A` is the controller's from
+    M3 on, and the M5 records the pairing; a man in the middle (any connection) who lets the honest M1/M3
+    through and then sends an M5 of his own sealed under the public key `K(S = 0)` is refused, and the
+    honest M5 still goes through afterwards -/
+example :
+    let cfg : Cfg := { G := { N := 23, g := 5, nLen := 8 }, c := toyCrypto }
+    let ps0 : PS := { pincode := [2], mac := [9], ltpk := [7], paired := [], verifier := none }
+    let srv := Srp.mk cfg.c.H cfg.G SRP_USER ps0.pincode [3] 6
+    let cl := client cfg.c.H cfg.G SRP_USER ps0.pincode [3] srv.Bb 4
+    let csig := [8] ++ (cfg.c.hkdf cl.K P4_SALT P4_INFO ++ [1] ++ [8])
+    let K0 := cfg.c.H []
+    let msig := [6] ++ (cfg.c.hkdf K0 P4_SALT P4_INFO ++ [5] ++ [6])
+    let evs : List Ev := [.req ⟨ctrlM1, [3], [6]⟩, .req ⟨ctrlM3 cl.Ab cl.M, [], []⟩, .connLost,
+      .req ⟨ctrlM5 cfg.c K0 (ctrlSub [5] [6] msig), [], []⟩,
+      .req ⟨ctrlM5 cfg.c cl.K (ctrlSub [1] [8] csig), [], []⟩]
+    ((xtrace cfg ps0 Ghost.init evs).map fun e =>
+        (e.g.exch, e.g.demoA, isO1 e.out, isO2 e.out, e.post.paired.length))
+      = [(none, none, false, false, 0),
+         (some ⟨[2], [3], 6⟩, none, true, false, 0),
+         (some ⟨[2], [3], 6⟩, some cl.Ab, false, false, 0),
+         (some ⟨[2], [3], 6⟩, some cl.Ab, false, true, 1)] := by
+  decide +kernel
+
+/-- the toy AEAD is authentic (`AeadAuth` is satisfiable) -/
+example : AeadAuth toyCrypto := by
+  intro k n ct p h
+  simp only [toyCrypto] at h ⊢
+  split at h
+  · next hk =>
+    simp only [Option.some.injEq] at h
+    have := List.take_append_drop (ct.length - k.length) ct
+    rw [hk, h] at this
+    exact this.symm
+  · exact absurd h (by simp)
+
+/-- the hybrid system is not empty and `PubConst` is satisfiable: on the toy instance the attacker sends an
+    M1 (any bytes that are not a complete M3), learns `(salt, B)`, then a complete M3 whose `A` and proof
+    denote derivable terms (`g^a` for a known `a`, a hash of public values) — a run of two served
+    requests exists, the first answered M2, the second refused -/
+example :
+    let I : PairSetupHybrid.Interp :=
+      { cfg := { G := { N := 23, g := 5, nLen := 8 }, c := toyCrypto }, code := [2],
+        nonceB := fun n => if n = 0 then xorBytes (toyCrypto.H (natToBytes 23)) (toyCrypto.H (natToBytes 5)) ++ toyCrypto.H SRP_USER
+                           else [3], secB := fun _ => [6] }
+    let ps0 : PS := { pincode := [2], mac := [9], ltpk := [7], paired := [], verifier := none }
+    PairSetupHybrid.PubConst I ∧
+    ∃ s es, PairSetupHybrid.HReach I ⟨ps0, Ghost.init, PairSetupSym.init.kn, none, 0⟩ s es ∧
+      es.map (fun x => x.out) = [.m4AuthErr, .m2 [3] (Srp.mk toyCrypto.H I.cfg.G SRP_USER [2] [3] 6).Bb] := by
+  intro I ps0
+  refine ⟨rfl, ?_⟩
+  let s0 : PairSetupHybrid.HState := ⟨ps0, Ghost.init, PairSetupSym.init.kn, none, 0⟩
+  let r1 : Req := ⟨ctrlM1, [3], [6]⟩
+  have st1 := PairSetupHybrid.HStep.req (I := I) s0 r1 none
+    (PairSetupHybrid.Sendable.other r1 (by decide +kernel)) (by decide +kernel) (by decide +kernel)
+  let s1 : PairSetupHybrid.HState :=
+    { ps := (step I.cfg s0.ps r1).1, g := gNext I.cfg s0.ps s0.g r1,
+      kn := PairSetupHybrid.learnAns s0 none (step I.cfg s0.ps r1).2.1,
+      cur := PairSetupHybrid.curNext s0 (step I.cfg s0.ps r1).2.1, n := s0.n + 1 }
+  let At := PairSetupSym.Tm.gexp (.nonce 7)
+  let Mt := PairSetupSym.Tm.hsh (.nonce 8)
+  let r2 : Req := ⟨ctrlM3 (PairSetupHybrid.interp I At) (PairSetupHybrid.interp I Mt), [3], [6]⟩
+  have dn : ∀ k, PairSetupSym.Der s1.kn (.nonce k) := by
+    intro k
+    have : (step I.cfg s0.ps r1).2.1 = .m2 [3] (Srp.mk toyCrypto.H I.cfg.G SRP_USER [2] [3] 6).Bb := by
+      decide +kernel
+    show PairSetupSym.Der (PairSetupHybrid.learnAns s0 none (step I.cfg s0.ps r1).2.1) _
+    rw [this]
+    exact PairSetupSym.Der.ax (Or.inl ⟨k, rfl⟩)
+  have st2 := PairSetupHybrid.HStep.req (I := I) s1 r2 (some (At, Mt))
+    (PairSetupHybrid.Sendable.sym r2 At Mt (PairSetupSym.Der.gexp (dn 7))
+      (PairSetupSym.Der.hsh (dn 8)) (by decide +kernel) (by decide +kernel))
+    (by decide +kernel) (by decide +kernel)
+  refine ⟨_, _, PairSetupHybrid.HReach.step _ (PairSetupHybrid.HReach.step _ PairSetupHybrid.HReach.refl st1) st2, ?_⟩
+  decide +kernel
+
+/-- `C01_mitm_pairing_origin` is not vacuous: with the attacker merely relaying, the honest controller's
+    exchange reaches a recorded success and then a recorded pairing with ITS identifier and key -/
+example : ∃ s, PairSetupMitm.MReach PairSetupMitm.init s ∧ s.verified = true ∧
+    s.paired = some (PairSetupSym.Tm.nonce 50, PairSetupSym.Tm.pk (PairSetupSym.Tm.sec 101)) :=
+  PairSetupMitm.mitm_honest_run
+
+/-- `C01_end_to_end` is not vacuous: on the toy instance the attacker opens an exchange, hands its `B` to the
+    honest controller, relays the controller's M3 — and the executable accessory answers with its proof
+    (O1 does occur, for the honest `A`) -/
+example :
+    let I : PairSetupHybrid.Interp :=
+      { cfg := { G := { N := 23, g := 5, nLen := 8 }, c := toyCrypto }, code := [2],
+        nonceB := fun n => if n = 0 then xorBytes (toyCrypto.H (natToBytes 23)) (toyCrypto.H (natToBytes 5)) ++ toyCrypto.H SRP_USER
+                           else [3], secB := fun n => if n = 100 then [4] else [6] }
+    let ps0 : PS := { pincode := [2], mac := [9], ltpk := [7], paired := [], verifier := none }
+    ∃ s es, PairSetupHybridMitm.XReach I
+        ⟨ps0, Ghost.init, fun t => ∃ n, t = PairSetupSym.Tm.nonce n, fun _ => False, fun _ => False, none, 0⟩ s es ∧
+      es.map (fun x => isO1 x.out) = [true, false] := by
+  intro I ps0
+  let s0 : PairSetupHybridMitm.XState :=
+    ⟨ps0, Ghost.init, fun t => ∃ n, t = PairSetupSym.Tm.nonce n, fun _ => False, fun _ => False, none, 0⟩
+  let r1 : Req := ⟨ctrlM1, [3], [6]⟩
+  have st1 := PairSetupHybridMitm.XStep.req (I := I) s0 r1 none
+    (PairSetupHybridMitm.XSendable.other r1 (by decide +kernel)) (by decide +kernel) (by decide +kernel)
+  let s1 : PairSetupHybridMitm.XState :=
+    { s0 with ps := (step I.cfg s0.ps r1).1, g := gNext I.cfg s0.ps s0.g r1,
+              kn := PairSetupHybridMitm.learnOpt s0.kn (PairSetupHybridMitm.ansTerm s0 none (step I.cfg s0.ps r1).2.1),
+              em := PairSetupHybridMitm.learnOpt s0.em (PairSetupHybridMitm.blobOf s0 none (step I.cfg s0.ps r1).2.1),
+              cur := PairSetupHybridMitm.xcurNext s0 (step I.cfg s0.ps r1).2.1, n := s0.n + 1 }
+  have ho1 : (step I.cfg s0.ps r1).2.1 = .m2 [3] (Srp.mk toyCrypto.H I.cfg.G SRP_USER [2] [3] 6).Bb := by
+    decide +kernel
+  let salt := PairSetupSym.Tm.nonce 4
+  let b := PairSetupSym.Tm.sec 0
+  have dB : PairSetupSym.Der s1.kn (PairSetupSym.Tm.bval salt b) := by
+    show PairSetupSym.Der (PairSetupHybridMitm.learnOpt s0.kn
+      (PairSetupHybridMitm.ansTerm s0 none (step I.cfg s0.ps r1).2.1)) _
+    rw [ho1]
+    exact PairSetupSym.Der.snd (PairSetupSym.Der.ax (Or.inr rfl))
+  let x : PairSetupMitm.HSess := ⟨salt, b, .sec 100, .nonce 50, .sec 101⟩
+  have st2 := PairSetupHybridMitm.XStep.hm3 (I := I) s1 x dB
+  let s2 : PairSetupHybridMitm.XState :=
+    { s1 with kn := PairSetupSym.learn (PairSetupSym.learn s1.kn (.gexp x.a)) (PairSetupSym.expM x.salt x.b (.gexp x.a)),
+              em := PairSetupSym.learn s1.em (PairSetupSym.expM x.salt x.b (.gexp x.a)),
+              hon := fun y => s1.hon y ∨ y = x }
+  let At := PairSetupSym.Tm.gexp x.a
+  let Mt := PairSetupSym.expM x.salt x.b At
+  let r2 : Req := ⟨ctrlM3 (PairSetupHybrid.interp I At) (PairSetupHybrid.interp I Mt), [3], [6]⟩
+  have st3 := PairSetupHybridMitm.XStep.req (I := I) s2 r2 (some (At, Mt))
+    (PairSetupHybridMitm.XSendable.sym r2 At Mt (PairSetupSym.Der.ax (Or.inl (Or.inr rfl)))
+      (PairSetupSym.Der.ax (Or.inr rfl)) (by decide +kernel) (by decide +kernel))
+    (by decide +kernel) (by decide +kernel)
+  refine ⟨_, _, PairSetupHybridMitm.XReach.step _ (PairSetupHybridMitm.XReach.step _
+    (PairSetupHybridMitm.XReach.step _ PairSetupHybridMitm.XReach.refl st1) st2) st3, ?_⟩
   decide +kernel
 
 end Hap.C01
